@@ -178,11 +178,15 @@ def mk_enum(s_edt):
     s_dt = one(s_edt).S_DT[17]()
     enums = list()
     kwlist =['False', 'None', 'True'] + keyword.kwlist
-    for enum in many(s_edt).S_ENUM[27]():
+    first_filter = lambda sel: not one(sel).S_ENUM[56, 'succeeds']()
+    enum = one(s_edt).S_ENUM[27](first_filter)
+    while enum:
         if enum.Name in kwlist:
             enums.append(enum.Name + '_')
         else:
             enums.append(enum.Name)
+        
+        enum = one(enum).S_ENUM[56, 'precedes']()
             
     Enum = collections.namedtuple(s_dt.Name, enums)
     return Enum(*range(len(enums)))
